@@ -70,6 +70,13 @@ func c12Suite(c Cfg) []Req {
 	for _, o := range []string{"https://example.com", "https://sub.example.com", "https://example.com:8443", "http://localhost:8080", "http://example.com", "https://a.example.org.", "http://192.168.1.1:8080", "https://foo.bar.example.net"} {
 		suite = append(suite, Actual("GET", o), Preflight(o, "PUT"))
 	}
+	// method spellings and header names that other live middlewares are likely to list
+	for _, m := range []string{"get", "pOst", "Head", "post", "put", "Put", "delete", "patch", "PURGE", "options", "oPtIoNs", "Foo", "QUERY"} {
+		suite = append(suite, Preflight(ok, m))
+	}
+	for _, h := range []string{"x-foo", "x-bar", "x-a", "content-type", "authorization", "foo", "x_under", "accept", "cache-control"} {
+		suite = append(suite, Preflight(ok, "GET", h))
+	}
 	return append(suite,
 		Actual("GET", evilOrigin), Actual("PUT", evilOrigin), Actual("OPTIONS", evilOrigin),
 		Preflight(evilOrigin, "GET"), Preflight(evilOrigin, "PUT", evilHeader), Preflight(evilOrigin, evilMethod),
